@@ -433,7 +433,7 @@ def rank_matrix_scenario():
     """every rank against every rank: a founder hands out ranks with MODE, then each member tries to KICK each other
     member (the victim comes back and gets its rank again), sets the topic of the +t channel and invites to the +i
     channel; the model decides who may"""
-    ranks = {"rq": "q", "ra": "a", "ro": "o", "rh": "h", "rv": "v", "rn": "", "roh": "oh", "rav": "av"}
+    ranks = {"rq": "q", "ra": "a", "ro": "o", "rh": "h", "rv": "v", "rn": "", "roh": "oh", "rav": "av", "rhv": "hv"}
     acts = [["connect", {"nick": "fo", "user": "fo"}]]
     cid = {"fo": 1}
     for k, n in enumerate(ranks):
